@@ -2023,7 +2023,9 @@ def reparse(soup, config="default"):
     """decode() + parse with an equally configured, new builder: what a pickle round trip is allowed to be.
     (Not a pickled copy of soup.builder: after __setstate__ the builder of an unpickled document still points back to the
     document — `builder.soup` is cleared by __init__ only — and pickling that builder on its own fails in __setstate__.)"""
-    return type(soup)(soup.decode(), builder=type(soup.builder)(**config_kwargs(config)))
+    # the rendering a pickle stores names no target encoding (f08ffee: `self.decode(eventual_encoding=None)`): a <meta> charset
+    # declaration comes back as it was, not rewritten to decode()'s default utf-8 — which is also what "equal to the original" asks for
+    return type(soup)(soup.decode(eventual_encoding=None), builder=type(soup.builder)(**config_kwargs(config)))
 
 
 def pickle_oracle(soup, p, config="default"):
